@@ -10,6 +10,7 @@ from props import c08
 MODULE = "OpcuaModel.Props.C10"
 TRUSTED_BASE = [
     "Lean 4.33.0 kernel; axioms audited (subset of propext, Classical.choice, Quot.sound)",
+    "tie (A): UANodeId.json_encode and UANodeId.nodeid_type_value_to_int are also regenerated from the source on every run (translator/py2lean.py) and Gen/NodeIdTie.lean proves the generated definitions equal to nodeIdJson / idTypeInt for every NodeId (jsonEncode_eq, typeInt_eq, gen_nodeId_numeric_valid); coverage.translator_tie says which case applied",
     "hand model Model/Json.lean: pyJsonQuote (= json.dumps(s, ensure_ascii=False)), every json_encode, JsonLite strict reader; tied to /repo by this correspondence run (emitted text compared as strings; JsonLite compared with Python's json on every emitted text)",
     "CPython str(float) / str(float(int)) are passed to the model as tokens; json.loads (strict) is the independent reader of the oracle",
     "driver JSON decoding, harness, value generator",
@@ -404,6 +405,9 @@ def xml_text_exact(run):
 def explore(run):
     rng = run.rng
     thorough = run.tier == "thorough"
+    import core
+    # tie (A): UANodeId.json_encode / nodeid_type_value_to_int regenerated from the source (Gen/NodeIdTie.lean: jsonEncode_eq, typeInt_eq); never a verdict by itself
+    run.extra["translator_tie"] = core.translator_tie()
     cache_witness(run)
     xml_text_exact(run)
     if run.full():
